@@ -43,7 +43,7 @@ def cases(seed, tier):
 
 def event_of(goal, naive):
     """does the naive run exhibit the refuted event? returns step or None"""
-    term, erase = naive.split(';')
+    term, erase = naive.split(';')[:2]
     t, n = term[len('term='):].split('@')
     if goal == 'halt' and t.startswith('halt:'):
         return int(n), t
